@@ -126,6 +126,7 @@ package ttlv
 //@   requires typeis(r, *xmlReader) ==> dyn(r, *xmlReader) != nil && dyn(r, *xmlReader).r != nil
 //@   requires typeis(r, *jsonReader) ==> dyn(r, *jsonReader) != nil
 //@   modifies dyn(r, *ttlvReader).buf, dyn(r, *xmlReader).elem, dyn(r, *jsonReader).value, dyn(r, *jsonReader).current
+//@   ghostmod xmlAdvanced
 //@   ghost cbCalls = old(cbCalls) + 1
 //@   ghost cbBuf = old(dyn(r, *ttlvReader).buf)
 
@@ -481,51 +482,63 @@ package ttlv
 
 //@ func (*jsonReader).Next
 //@   requires j != nil
+//@   ensures r0 == nil ==> len(j.value)+1 == old(len(j.value))
 //@   modifies j.value, j.current
 
 //@ func (*jsonReader).Integer
 //@   requires j != nil
+//@   ensures r1 == nil ==> len(j.value)+1 == old(len(j.value))
 //@   modifies j.value, j.current
 
 //@ func (*jsonReader).LongInteger
 //@   requires j != nil
+//@   ensures r1 == nil ==> len(j.value)+1 == old(len(j.value))
 //@   modifies j.value, j.current
 
 //@ func (*jsonReader).BigInteger
 //@   requires j != nil
+//@   ensures r1 == nil ==> len(j.value)+1 == old(len(j.value))
 //@   modifies j.value, j.current
 
 //@ func (*jsonReader).Enum
 //@   requires j != nil
+//@   ensures r1 == nil ==> len(j.value)+1 == old(len(j.value))
 //@   modifies j.value, j.current
 
 //@ func (*jsonReader).Bool
 //@   requires j != nil
+//@   ensures r1 == nil ==> len(j.value)+1 == old(len(j.value))
 //@   modifies j.value, j.current
 
 //@ func (*jsonReader).TextString
 //@   requires j != nil
+//@   ensures r1 == nil ==> len(j.value)+1 == old(len(j.value))
 //@   modifies j.value, j.current
 
 //@ func (*jsonReader).ByteString
 //@   requires j != nil
+//@   ensures r1 == nil ==> len(j.value)+1 == old(len(j.value))
 //@   modifies j.value, j.current
 
 //@ func (*jsonReader).DateTime
 //@   requires j != nil
+//@   ensures r1 == nil ==> len(j.value)+1 == old(len(j.value))
 //@   modifies j.value, j.current
 
 //@ func (*jsonReader).Interval
 //@   requires j != nil
+//@   ensures r1 == nil ==> len(j.value)+1 == old(len(j.value))
 //@   modifies j.value, j.current
 
 //@ func (*jsonReader).Bitmask
 //@   requires j != nil
+//@   ensures r1 == nil ==> len(j.value)+1 == old(len(j.value))
 //@   modifies j.value, j.current
 //@   loop 0 invariant -1 <= rangeindex && rangeindex < len(parts)
 
 //@ func (*jsonReader).Struct
 //@   requires j != nil && f != nil
+//@   ensures r0 == nil ==> len(j.value)+1 == old(len(j.value))
 //@   modifies j.value, j.current
 
 //@ func newJSONReader
@@ -537,6 +550,11 @@ package ttlv
 
 //@ func newXMLReader
 //@   ensures r1 == nil ==> r0 != nil && r0.r != nil
+
+// progress: every successful read consumes at least one token of the underlying xml.Decoder (the ghost latch
+// xmlAdvanced is set to 1 by every call of (*xml.Decoder).Token, whatever its value before); the JSON reader
+// drops the element it has read from j.value.
+//@ ghostvar xmlAdvanced int
 
 // XML reader: representation invariant "the receiver and its xml.Decoder are non-nil"; elem is nil at the end of
 // a structure or of the document, and every typed read checks it (assertType) before touching the attributes.
@@ -566,50 +584,76 @@ package ttlv
 
 //@ func (*xmlReader).Next
 //@   requires dec != nil && dec.r != nil
+//@   ensures r0 == nil ==> xmlAdvanced == 1
+//@   ghostmod xmlAdvanced
+//@   loop 0 ghostmod xmlAdvanced
 //@   modifies dec.elem
 
 //@ func (*xmlReader).Integer
 //@   requires dec != nil && dec.r != nil
+//@   ensures r1 == nil ==> xmlAdvanced == 1
+//@   ghostmod xmlAdvanced
 //@   modifies dec.elem
 
 //@ func (*xmlReader).LongInteger
 //@   requires dec != nil && dec.r != nil
+//@   ensures r1 == nil ==> xmlAdvanced == 1
+//@   ghostmod xmlAdvanced
 //@   modifies dec.elem
 
 //@ func (*xmlReader).BigInteger
 //@   requires dec != nil && dec.r != nil
+//@   ensures r1 == nil ==> xmlAdvanced == 1
+//@   ghostmod xmlAdvanced
 //@   modifies dec.elem
 
 //@ func (*xmlReader).Enum
 //@   requires dec != nil && dec.r != nil
+//@   ensures r1 == nil ==> xmlAdvanced == 1
+//@   ghostmod xmlAdvanced
 //@   modifies dec.elem
 
 //@ func (*xmlReader).Bool
 //@   requires dec != nil && dec.r != nil
+//@   ensures r1 == nil ==> xmlAdvanced == 1
+//@   ghostmod xmlAdvanced
 //@   modifies dec.elem
 
 //@ func (*xmlReader).TextString
 //@   requires dec != nil && dec.r != nil
+//@   ensures r1 == nil ==> xmlAdvanced == 1
+//@   ghostmod xmlAdvanced
 //@   modifies dec.elem
 
 //@ func (*xmlReader).ByteString
 //@   requires dec != nil && dec.r != nil
+//@   ensures r1 == nil ==> xmlAdvanced == 1
+//@   ghostmod xmlAdvanced
 //@   modifies dec.elem
 
 //@ func (*xmlReader).DateTime
 //@   requires dec != nil && dec.r != nil
+//@   ensures r1 == nil ==> xmlAdvanced == 1
+//@   ghostmod xmlAdvanced
 //@   modifies dec.elem
 
 //@ func (*xmlReader).Interval
 //@   requires dec != nil && dec.r != nil
+//@   ensures r1 == nil ==> xmlAdvanced == 1
+//@   ghostmod xmlAdvanced
 //@   modifies dec.elem
 
 //@ func (*xmlReader).Bitmask
 //@   requires dec != nil && dec.r != nil
+//@   ensures r1 == nil ==> xmlAdvanced == 1
+//@   ghostmod xmlAdvanced
 //@   modifies dec.elem
 //@   loop 0 invariant -1 <= rangeindex && rangeindex < len(parts)
 
 //@ func (*xmlReader).Struct
 //@   requires dec != nil && dec.r != nil && f != nil
+//@   ensures r0 == nil ==> xmlAdvanced == 1
+//@   ghostmod xmlAdvanced
+//@   loop 0 ghostmod xmlAdvanced
 //@   modifies dec.elem
 
